@@ -486,6 +486,14 @@ def gen_C10(rng, tier):
             b[n - 6:n - 4] = E.u16(1)
         cases.append("hdrwalk " + hx(bytes(b)))
         count(dist["realistic"], kind)
+    # headers made by the crate's own builder, both architectures: they must load (length, checksum, end tag are the builder's)
+    if "ctor" in DOMAINS_READY:
+        hb = [c for c in TB.GENS["hbuild"](TB.Gen(rng.getrandbits(32)), 1)]
+        mips = [c for c in hb if c.startswith("hbuild 4 ")]
+        i386 = [c for c in hb if c.startswith("hbuild 0 ")]
+        pick = mips[:60] + random.Random(rng.getrandbits(32)).sample(i386, min(60, len(i386)))
+        cases += pick
+        dist["built_headers"] = len(pick)
     sizes = [80, 96, 100, 1024, 4096, 65536] + [rng.randrange(72, 1 << 14) for _ in range(30)]
     if tier == "thorough":
         sizes += [1 << 20, (1 << 20) + 4] + [rng.randrange(72, 1 << 18) for _ in range(200)]
@@ -624,7 +632,7 @@ PROPS.update({
                 assumptions=["the memory made valid for load is max(8, declared total size) bytes (the caller's obligation under load's safety contract)"]),
     "C03": dict(gen=gen_C03, configs=["dev", "rel"], judge=judge_projection(["load", "tag", "tags", "tags_nth", "tags_count", "tags_clone", "module", "modules", "new", "clone", "next"]),
                 both_placements=True, assumptions=["an iterator is not used again after one of its calls panicked"]),
-    "C10": dict(gen=gen_C10, configs=["dev", "rel"], judge=judge_projection(["load", "calc_checksum", "verify_checksum"]), both_placements=True,
+    "C10": dict(gen=gen_C10, configs=["dev", "rel"], judge=judge_projection(["load", "calc_checksum", "verify_checksum", "hbuild"]), both_placements=True,
                 assumptions=["the architecture word is 0 or 4 (a defined HeaderTagISA value), as the property presupposes"]),
     "C13": dict(gen=gen_C13, configs=["dev", "rel"], judge=judge_C13, both_placements=True, assumptions=[]),
 })
@@ -1002,6 +1010,13 @@ def gen_C04(rng, tier):
         pal = [((7 * i) & 0xFF, (i >> 8) & 0xFF, i & 0xFF) for i in range(n)]
         cases.append(mbi_case(E.mbi([E.t_framebuffer(0xB8000, 1, 2, 3, 8, 0, E.fb_indexed(pal, n), 0), E.t_cmdline("behind")])))
         count(dist, "large_palettes")
+    # two framebuffer tags: the first one decides, whatever its type byte (unknown first / known second and vice versa)
+    for b1 in (0, 1, 2, 3, 7, 255):
+        for b2 in (0, 1, 2, 3, 255):
+            t1 = E.t_framebuffer(0x1000, 1, 2, 3, 8, b1, E.fb_rgb(1, 2, 3, 4, 5, 6), 0)
+            t2 = E.t_framebuffer(0xB8000, 9, 9, 9, 16, b2, E.fb_rgb(6, 5, 4, 3, 2, 1), 0)
+            cases.append(mbi_case(E.mbi([E.t_cmdline("c"), t1, t2])))
+            count(dist, "two_framebuffers")
     # all 256 framebuffer type bytes
     for b in range(256):
         cases.append(mbi_case(E.mbi([E.t_framebuffer(0x1000, 1, 2, 3, 8, b, E.fb_rgb(1, 2, 3, 4, 5, 6), 0)])))
@@ -1054,6 +1069,12 @@ def gen_C05(rng, tier):
                 count(dist, "kind_%d" % typ)
     # the palette of an indexed framebuffer: its extent is fixed by the colour count, which must fit the declared size
     cases += palette_family(dist)
+    # ELF section bytes: entry sizes around 40 and 64, counts and indices against the section bytes, overflowing products
+    elf = [c for c in gen_C19(random.Random(rng.getrandbits(32)), tier)[0] if c.startswith("mbi ")]
+    if tier == "quick" and len(elf) > 500:
+        elf = random.Random(rng.getrandbits(32)).sample(elf, 500)
+    cases += elf
+    dist["elf_tables"] = len(elf)
     # the generic structure obtained from a slice (ref_from_slice): declared sizes around the slice length, both tag header kinds
     for h in (1, 2):
         for n in range(8, 49, 8):
@@ -1417,7 +1438,7 @@ def gen_C09(rng, tier):
     # the header-crate structures obtained from a slice (ref_from_slice): declared sizes around the slice length
     for h in (2, 4):
         hs = 16 if h == 4 else 8
-        for n in range(hs, 65, 8):
+        for n in list(range(hs, 65, 8)) + [hs + 4, hs + 12, hs + 20, hs + 2]:      # also lengths that miss the padding
             for d in range(max(0, n - hs - 2), n + hs + 10):
                 cases.append("c14 %d 0 %s" % (h, hx((hdr_bytes(h, d, rng) + marker(n, start=n + d))[:n])))
                 count(dist, "from_slice")
